@@ -275,8 +275,10 @@ type Config struct {
 	PrinterConfigTabwidth int `yaml:"printerConfigTabwidth"` // default: 8
 	// PrinterConfigIndent is the indent of the printer config
 	PrinterConfigIndent int `yaml:"printerConfigIndent"` // default: 0
-	// printerConfig is the printer config
-	printerConfig *printer.Config `yaml:"-"`
+	// printerConfig is the printer config, built once on first use
+	// (PrinterConfig is called concurrently from the worker goroutines)
+	printerConfig     *printer.Config `yaml:"-"`
+	printerConfigOnce sync.Once       `yaml:"-"`
 	// Data type
 	DataType string `yaml:"dataType"` // default: bool
 	// Verbose output
@@ -438,21 +440,21 @@ func (c *Config) GoatGeneratedFile() string {
 	return filepath.Join(c.GoatPackagePath, goatGeneratedFile)
 }
 
+// PrinterConfig returns the shared printer config. It is safe for concurrent use:
+// the config is built exactly once and is read-only afterwards.
 func (c *Config) PrinterConfig() *printer.Config {
-	if c.printerConfig != nil {
-		return c.printerConfig
-	}
-	mode := printer.Mode(0)
-	for _, m := range c.PrinterConfigMode {
-		mode |= m.Mode()
-	}
-	cfg := &printer.Config{
-		Mode:     mode,
-		Tabwidth: c.PrinterConfigTabwidth,
-		Indent:   c.PrinterConfigIndent,
-	}
-	c.printerConfig = cfg
-	return cfg
+	c.printerConfigOnce.Do(func() {
+		mode := printer.Mode(0)
+		for _, m := range c.PrinterConfigMode {
+			mode |= m.Mode()
+		}
+		c.printerConfig = &printer.Config{
+			Mode:     mode,
+			Tabwidth: c.PrinterConfigTabwidth,
+			Indent:   c.PrinterConfigIndent,
+		}
+	})
+	return c.printerConfig
 }
 
 func (c *Config) GetDataType() DataType {
